@@ -129,6 +129,24 @@ def schemeOfPlan (pl : AsymPlan) : SigScheme KeyMat KeyMat where
     else if c = "ed25519.Verify" then boolVerify (Kit.Crypto.Ed25519.verify k.pk digest sig)
     else .failure ("model: no scheme for " ++ c)
 
+/-- The public-key encryption scheme a dispatched helper's stdlib call denotes. -/
+def pkeOfPlan (pl : AsymPlan) : PkeScheme KeyMat KeyMat where
+  pub := id
+  enc := fun k msg label rand =>
+    let c := pl.helper.stdCall
+    let r :=
+      if c = "rsa.EncryptPKCS1v15" then Kit.Crypto.rsaEncryptPkcs1v15 k.n k.e msg rand
+      else if c = "rsa.EncryptOAEP" then (rsaHashOfBits pl.hash).bind fun h => Kit.Crypto.rsaEncryptOaep k.n k.e h label msg rand
+      else none
+    match r with | some x => .ok x | none => .err "rsa:encrypt"
+  dec := fun k ct label =>
+    let c := pl.helper.stdCall
+    let r :=
+      if c = "rsa.DecryptPKCS1v15" then Kit.Crypto.rsaDecryptPkcs1v15 k.n k.d ct
+      else if c = "rsa.DecryptOAEP" then (rsaHashOfBits pl.hash).bind fun h => Kit.Crypto.rsaDecryptOaep k.n k.d h label ct
+      else none
+    match r with | some x => .ok x | none => .err "rsa:decrypt"
+
 def parseKind (s : String) : Option KeyKind :=
   if s = "oct" then some .oct
   else if s = "rsaPriv" then some .rsaPriv else if s = "rsaPub" then some .rsaPub
@@ -353,13 +371,20 @@ def answer (l : Line) : String :=
     | some fn, some alg, some kind =>
       let km : KeyMat := { n := num "n", e := num "e", d := num "d", qx := num "qx", qy := num "qy", dd := num "dd",
                            seed := byt "seed", pk := byt "pk" }
-      let sw := if fn = "SignPrivateKey" then Generated.C03.sw_SignPrivateKey else Generated.C03.sw_VerifyPublicKey
+      let sw := if fn = "SignPrivateKey" then Generated.C03.sw_SignPrivateKey
+        else if fn = "VerifyPublicKey" then Generated.C03.sw_VerifyPublicKey
+        else if fn = "EncryptPublicKey" then Generated.C03.sw_EncryptPublicKey
+        else Generated.C03.sw_DecryptPrivateKey
       match asymPlan sw alg with
       | .err e => s!"err {clean e}"
       | .panic w => s!"panic {clean w}"
       | .ok pl =>
         let S := schemeOfPlan pl
-        if fn = "SignPrivateKey" then
+        if fn = "EncryptPublicKey" then
+          render (encryptPublicKey (pkeOfPlan pl) alg kind km (byt "data") (byt "label") (byt "rand")) (fun c => s!"ct={toHex c}")
+        else if fn = "DecryptPrivateKey" then
+          render (decryptPrivateKey (pkeOfPlan pl) alg kind km (byt "data") (byt "label")) (fun m => s!"pt={toHex m}")
+        else if fn = "SignPrivateKey" then
           render (signPrivateKey S alg kind km (byt "digest") (byt "rand")) (fun sg => s!"sig={toHex sg}")
         else
           render (verifyPublicKey S alg kind km (byt "digest") (byt "sig")) (fun b => s!"valid={b}")
